@@ -687,7 +687,9 @@ func runReplay(path string, verbose bool) (verdict, output string) {
 	if err := json.Unmarshal(b, &rf); err != nil {
 		return "error: " + err.Error(), ""
 	}
-	if rf.Mode == "engine" {
+	if rf.Mode == "engine" || strings.HasPrefix(rf.Expect.Name, "reslice beyond len") {
+		// (a reslice beyond len but within cap raises no Go runtime error, so
+		// it has no native manifestation with the harness's spare capacity)
 		return engineReplay(&rf)
 	}
 	abs, _ := filepath.Abs(path)
@@ -717,7 +719,7 @@ func runReplay(path string, verbose bool) (verdict, output string) {
 				verdict = "reproduced"
 			}
 		}
-		if verdict != "reproduced" && res != "ok" {
+		if verdict != "reproduced" && !strings.HasPrefix(verdict, "not reproduced (") && res != "ok" {
 			verdict = "not reproduced (native result: " + res + ")"
 		}
 	}
